@@ -69,7 +69,7 @@ META = {
               "simulations built through the public builder API whose builder answers, module vector, full callback log and parent/child/path lookups are compared with the "
               "model and the declared-tree specification; parent()/child() and the children maps agree with the declared tree (parents_agree_with_declared_tree, children_agree_with_declared_tree, "
               "children_map_is_declared_children, modules_are_the_declared_ones); Runtime::run over the kernel model Rt puts every at_sim_end call after all start stages and all events for any event set "
-              "and message schedule (sim_end_after_last_event, start_stages_before_events); gate paths and as_parent_str (gate_path, as_parent_str_appended); every builder script refines the contract and rejected calls change nothing (script_refines_contract, rejected_declaration_changes_nothing); path <-> module is a bijection (path_node_bijection); no module precedes its parent and module states are dropped in pre-order, parents first, without cascading drops (parent_before_children, teardown_in_vector_order)."),
+              "and message schedule (sim_end_after_last_event, start_stages_before_events); gate paths and as_parent_str (gate_path, as_parent_str_appended); every builder script refines the contract and rejected calls change nothing (script_refines_contract, rejected_declaration_changes_nothing); path <-> module is a bijection (path_node_bijection); no module precedes its parent and module states are dropped in pre-order, parents first, without cascading drops (parent_before_children, teardown_in_vector_order); modules whose at_sim_end returns Err do not stop the tear-down: every module is ended once and run() carries all errors in pre-order (sim_end_errors_all_reported)."),
         design_ref="DESIGN.md §5 C12",
         note=("Trusted: Lean kernel; axioms propext/Classical.choice/Quot.sound; hand transcription Rust->Lean (UTF-8 strings as byte lists, ModuleRef as creation index, children HashMap as association list), "
               "validated by the correspondence runs; harness, driver, orchestrator. The run model takes the callbacks' add_event calls as parameters and assumes all modules stay active during start-up "
